@@ -2,8 +2,11 @@ package main
 
 import (
 	"fmt"
+	"go/constant"
 	"go/token"
 	"go/types"
+	"math"
+	"math/big"
 	"sort"
 	"strings"
 
@@ -564,7 +567,8 @@ func checkAccumulators(c *Ctx, r *Report, li *LockInfo, rule string, inScope fun
 			if !isC || k != 10 || !isPhi {
 				return
 			}
-			if bt, ok := mul.Type().Underlying().(*types.Basic); !ok || bt.Info()&types.IsInteger == 0 {
+			bt, ok := mul.Type().Underlying().(*types.Basic)
+			if !ok || bt.Info()&types.IsInteger == 0 {
 				return
 			}
 			// loop-carried: some edge of phi derives from mul
@@ -578,19 +582,287 @@ func checkAccumulators(c *Ctx, r *Report, li *LockInfo, rule string, inScope fun
 				return
 			}
 			nAcc++
-			guarded := false
-			for _, fc := range factsAt(f, mul) {
-				if bo, ok := fc.cond.(*ssa.BinOp); ok {
-					switch bo.Op {
-					case token.LSS, token.LEQ, token.GTR, token.GEQ:
-						if unconvNum(bo.X) == ssa.Value(phi) || unconvNum(bo.Y) == ssa.Value(phi) {
-							guarded = true
-						}
-					}
-				}
-			}
-			r.Check(guarded, rule, fnKey(f)+": decimal accumulator "+phi.Comment, c.InstrPos(mul), "acc*10 is dominated by a bound comparison on acc inside the loop", "acc = acc*10 + digit without an overflow guard: a long digit string wraps around int64 and parses as a different, valid-looking number")
+			ok2, why := accumulatorGuarded(f, phi, mul, bt)
+			r.Check(ok2, rule, fnKey(f)+": decimal accumulator "+phi.Comment, c.InstrPos(mul), why, "acc = acc*10 + digit is not guarded against overflow on every path ("+why+"): a long digit string wraps around and parses as a different, valid-looking number")
 		})
 	}
 	return nAcc
+}
+
+// accumulatorGuarded decides, for every path of one loop iteration from the accumulator's phi to acc*10 (+ digit),
+// whether the branch conditions on that path bound acc (and the digit) so that acc*10 + digit fits the type:
+//   - exact form: acc <= (M - digit)/10 with M <= the type's maximum and digit the value that is added;
+//   - constant form: acc <= K (and optionally acc != K, digit <= D) with K*10 + D <= maximum (D = 9 if unbounded);
+//   - a bound on the length of the digit string that the type can hold (dominating fact).
+func accumulatorGuarded(f *ssa.Function, phi *ssa.Phi, mul *ssa.BinOp, bt *types.Basic) (bool, string) {
+	max := new(big.Int)
+	switch bt.Kind() {
+	case types.Int8:
+		max.SetInt64(math.MaxInt8)
+	case types.Int16:
+		max.SetInt64(math.MaxInt16)
+	case types.Int32:
+		max.SetInt64(math.MaxInt32)
+	case types.Int, types.Int64:
+		max.SetInt64(math.MaxInt64)
+	case types.Uint8:
+		max.SetInt64(math.MaxUint8)
+	case types.Uint16:
+		max.SetInt64(math.MaxUint16)
+	case types.Uint32:
+		max.SetInt64(math.MaxUint32)
+	default:
+		max.SetUint64(math.MaxUint64)
+	}
+	// the digit: the other operand of the addition that consumes mul
+	var digit ssa.Value
+	if mul.Referrers() != nil {
+		for _, ref := range *mul.Referrers() {
+			if add, ok := ref.(*ssa.BinOp); ok && add.Op == token.ADD {
+				if add.X == ssa.Value(mul) {
+					digit = add.Y
+				} else {
+					digit = add.X
+				}
+			}
+		}
+	}
+	sameDigit := func(v ssa.Value) bool {
+		if digit == nil {
+			return false
+		}
+		if v == digit {
+			return true
+		}
+		// int64(ch - '0') computed twice: same shape over the same character value
+		a, b := unconvNum(v), unconvNum(digit)
+		sa, oka := a.(*ssa.BinOp)
+		sb, okb := b.(*ssa.BinOp)
+		if oka && okb && sa.Op == token.SUB && sb.Op == token.SUB && unconvNum(sa.X) == unconvNum(sb.X) {
+			ka, ok1 := constInt(sa.Y)
+			kb, ok2 := constInt(sb.Y)
+			return ok1 && ok2 && ka == kb
+		}
+		return false
+	}
+	isAcc := func(v ssa.Value) bool { return unconvNum(v) == ssa.Value(phi) }
+	bigOf := func(v ssa.Value) (*big.Int, bool) {
+		for {
+			switch x := v.(type) {
+			case *ssa.Convert:
+				v = x.X
+				continue
+			case *ssa.ChangeType:
+				v = x.X
+				continue
+			}
+			break
+		}
+		if cst, ok := v.(*ssa.Const); ok && cst.Value != nil && cst.Value.Kind() == constant.Int {
+			b, ok := new(big.Int).SetString(cst.Value.ExactString(), 10)
+			return b, ok
+		}
+		return nil, false
+	}
+	// exact form operand: (M - digit) / 10
+	isExactBound := func(v ssa.Value) bool {
+		q, ok := unconvNum(v).(*ssa.BinOp)
+		if !ok || q.Op != token.QUO {
+			return false
+		}
+		if ten, ok := constInt(q.Y); !ok || ten != 10 {
+			return false
+		}
+		sub, ok := unconvNum(q.X).(*ssa.BinOp)
+		if !ok || sub.Op != token.SUB || !sameDigit(sub.Y) {
+			return false
+		}
+		m, ok := bigOf(sub.X)
+		return ok && m.Cmp(max) <= 0
+	}
+	type bound struct {
+		exact  bool
+		accMax *big.Int // nil: unbounded
+		accNe  []*big.Int
+		dMax   *big.Int
+	}
+	one := big.NewInt(1)
+	apply := func(b *bound, cond ssa.Value, truth bool) {
+		bo, ok := cond.(*ssa.BinOp)
+		if !ok {
+			return
+		}
+		op := bo.Op
+		x, y := bo.X, bo.Y
+		// normalise to "subject op other"
+		subjAcc, subjDig := isAcc(x), sameDigit(x)
+		if !subjAcc && !subjDig && (isAcc(y) || sameDigit(y)) {
+			x, y = y, x
+			subjAcc, subjDig = isAcc(x), sameDigit(x)
+			switch op {
+			case token.LSS:
+				op = token.GTR
+			case token.GTR:
+				op = token.LSS
+			case token.LEQ:
+				op = token.GEQ
+			case token.GEQ:
+				op = token.LEQ
+			}
+		}
+		if !subjAcc && !subjDig {
+			return
+		}
+		if !truth {
+			switch op {
+			case token.LSS:
+				op = token.GEQ
+			case token.GTR:
+				op = token.LEQ
+			case token.LEQ:
+				op = token.GTR
+			case token.GEQ:
+				op = token.LSS
+			case token.EQL:
+				op = token.NEQ
+			case token.NEQ:
+				op = token.EQL
+			}
+		}
+		if subjAcc && isExactBound(y) && (op == token.LEQ || op == token.LSS || op == token.EQL) {
+			b.exact = true
+			return
+		}
+		kv, ok := bigOf(y)
+		if !ok {
+			return
+		}
+		var ub *big.Int
+		switch op {
+		case token.LEQ, token.EQL:
+			ub = kv
+		case token.LSS:
+			ub = new(big.Int).Sub(kv, one)
+		case token.NEQ:
+			if subjAcc {
+				b.accNe = append(b.accNe, kv)
+			}
+			return
+		default:
+			return
+		}
+		if subjAcc {
+			if b.accMax == nil || ub.Cmp(b.accMax) < 0 {
+				b.accMax = ub
+			}
+		} else if b.dMax == nil || ub.Cmp(b.dMax) < 0 {
+			b.dMax = ub
+		}
+	}
+	fits := func(b *bound) bool {
+		if b.exact {
+			return true
+		}
+		if b.accMax == nil {
+			return false
+		}
+		am := new(big.Int).Set(b.accMax)
+		for changed := true; changed; {
+			changed = false
+			for _, ne := range b.accNe {
+				if ne.Cmp(am) == 0 {
+					am.Sub(am, one)
+					changed = true
+				}
+			}
+		}
+		d := big.NewInt(9)
+		if b.dMax != nil && b.dMax.Cmp(d) < 0 {
+			d = b.dMax
+		}
+		v := new(big.Int).Mul(am, big.NewInt(10))
+		v.Add(v, d)
+		return v.Cmp(max) <= 0
+	}
+	// facts that dominate the loop body from outside (a length bound on the digit string)
+	digits := len(max.String()) - 1 // every number with that many digits fits
+	for _, fc := range factsAt(f, mul) {
+		bo, ok := fc.cond.(*ssa.BinOp)
+		if !ok {
+			continue
+		}
+		lenOf := func(v ssa.Value) bool {
+			call, ok := unconvNum(v).(*ssa.Call)
+			if !ok {
+				return false
+			}
+			bi, ok := call.Call.Value.(*ssa.Builtin)
+			return ok && bi.Name() == "len"
+		}
+		if lenOf(bo.X) {
+			if kv, ok := constInt(bo.Y); ok {
+				le := (bo.Op == token.GTR && !fc.truth && kv <= int64(digits)) || (bo.Op == token.LEQ && fc.truth && kv <= int64(digits)) ||
+					(bo.Op == token.GEQ && !fc.truth && kv-1 <= int64(digits)) || (bo.Op == token.LSS && fc.truth && kv-1 <= int64(digits))
+				if le {
+					return true, fmt.Sprintf("the digit string is at most %d characters long, which always fits", digits)
+				}
+			}
+		}
+	}
+	// paths of one iteration: from the phi's block to the block of mul
+	start, target := phi.Block(), mul.Block()
+	var bad string
+	nPaths := 0
+	var walk func(b *ssa.BasicBlock, seen map[*ssa.BasicBlock]bool, bd bound)
+	walk = func(b *ssa.BasicBlock, seen map[*ssa.BasicBlock]bool, bd bound) {
+		if bad != "" || nPaths > 4096 {
+			return
+		}
+		if b == target {
+			nPaths++
+			if !fits(&bd) {
+				desc := "acc unbounded"
+				if bd.accMax != nil {
+					desc = "acc <= " + bd.accMax.String()
+					if bd.dMax != nil {
+						desc += ", digit <= " + bd.dMax.String()
+					}
+					desc += ": acc*10 + digit can exceed " + max.String()
+				}
+				bad = desc
+			}
+			return
+		}
+		if seen[b] {
+			return
+		}
+		seen[b] = true
+		defer delete(seen, b)
+		if len(b.Instrs) == 0 {
+			return
+		}
+		if ifi, ok := b.Instrs[len(b.Instrs)-1].(*ssa.If); ok {
+			for k, succ := range b.Succs {
+				nb := bd
+				nb.accNe = append([]*big.Int(nil), bd.accNe...)
+				apply(&nb, ifi.Cond, k == 0)
+				walk(succ, seen, nb)
+			}
+			return
+		}
+		for _, succ := range b.Succs {
+			walk(succ, seen, bd)
+		}
+	}
+	walk(start, map[*ssa.BasicBlock]bool{}, bound{})
+	if nPaths == 0 {
+		return false, "no path from the loop head to the multiplication found"
+	}
+	if nPaths > 4096 {
+		return false, "too many paths to enumerate"
+	}
+	if bad != "" {
+		return false, bad
+	}
+	return true, fmt.Sprintf("on each of the %d paths of an iteration the branch conditions imply acc*10 + digit <= %s", nPaths, max.String())
 }
